@@ -16,6 +16,10 @@ fn vars<F: VF>(p: &str, n: usize) -> Vec<F> {
     (0..n).map(|i| F::var(&format!("{p}{i}"))).collect()
 }
 
+fn masked<F: VF>(p: &str, n: usize, mask: usize) -> Vec<F> {
+    (0..n).map(|i| if mask >> i & 1 == 1 { F::var(&format!("{p}{i}")) } else { F::ZERO }).collect()
+}
+
 fn eval_at<F: VF>(c: &[F], x: F) -> F {
     let mut acc = F::ZERO;
     for k in c.iter().rev() {
@@ -218,6 +222,126 @@ fn poly_group<F: VF>(ctx: &mut Ctx) {
                     );
                 });
             }
+        }
+    }
+    // support patterns: every coefficient is either a fresh symbol or the concrete zero, so that
+    // trailing / leading / interior zero coefficients (sparse and untrimmed operands) are covered;
+    // one obligation per (len a, len b, algorithm) carries all patterns.
+    let (sla, slb) = if th { (7, 4) } else { (5, 3) };
+    for la in 1..=sla {
+        for lb in 1..=slb.min(la) {
+            for long in [false, true] {
+                let alg = if long { "long-division" } else { "div-rem" };
+                let idp = format!("C15.S.algebra.poly.{alg}.support.{la}by{lb}");
+                ctx.guarded(&idp.clone(), POLY_FILES, |ctx| {
+                    if F::SYMBOLIC {
+                        crate::reset();
+                    }
+                    let mut goals = vec![];
+                    let mut panics = vec![];
+                    for ma in 0..(1usize << la) {
+                        for mb in 1..(1usize << lb) {
+                            let (a, b) = (masked::<F>("a", la, ma), masked::<F>("b", lb, mb));
+                            let (pa, pb) = (PolynomialCoeffs::new(a.clone()), PolynomialCoeffs::new(b.clone()));
+                            let res = std::panic::catch_unwind(std::panic::AssertUnwindSafe(|| {
+                                F::assume_ne(|| if long { pa.div_rem_long_division(&pb) } else { pa.div_rem(&pb) })
+                            }));
+                            let (q, r) = match res {
+                                Ok(x) => x,
+                                Err(_) => {
+                                    panics.push(format!("a~{ma:#b} b~{mb:#b}"));
+                                    goals.push(A::Bool(false));
+                                    continue;
+                                }
+                            };
+                            let mut qb = school::<F>(&q.coeffs, &b);
+                            let m = qb.len().max(r.coeffs.len()).max(a.len());
+                            qb.resize(m, F::ZERO);
+                            for i in 0..m {
+                                let ri = if i < r.coeffs.len() { r.coeffs[i] } else { F::ZERO };
+                                let ai = if i < a.len() { a[i] } else { F::ZERO };
+                                goals.push(eq(qb[i] + ri, ai));
+                            }
+                            let db = usize::BITS as usize - 1 - mb.leading_zeros() as usize;
+                            for i in db..r.coeffs.len() {
+                                goals.push(eq(r.coeffs[i], F::ZERO));
+                            }
+                        }
+                    }
+                    ctx.add(
+                        Ob::new(idp.clone(), POLY_FILES, format!("operand lengths {la} and {lb}; every support pattern (each coefficient a symbol or the concrete zero, b not all zero): {} patterns; symbols generic (tested values non-zero){}", (1usize << la) * ((1usize << lb) - 1), if panics.is_empty() { String::new() } else { format!("; PANICS at patterns {}", panics.join(", ")) }))
+                            .sample("(q, r) = div_rem(a, b):  a == q b + r  and  deg r < deg b, and no panic, for sparse / untrimmed operands")
+                            .goals(goals)
+                            .key(format!("poly:{alg}-wrong-on-sparse-operands")),
+                    );
+                });
+            }
+        }
+    }
+    // inverse modulo X^n on sparse operands
+    for l in 1..=(if th { 6 } else { 4 }) {
+        for n in 1..=(if th { 9 } else { 6 }) {
+            let idp = format!("C15.S.algebra.poly.inv-mod-xn.support.{l}mod{n}");
+            ctx.guarded(&idp.clone(), POLY_FILES, |ctx| {
+                if F::SYMBOLIC {
+                    crate::reset();
+                }
+                let mut goals = vec![];
+                let mut panics = vec![];
+                for m in (1..(1usize << l)).step_by(2) {
+                    let a = masked::<F>("a", l, m);
+                    let pa = PolynomialCoeffs::new(a.clone());
+                    let res = std::panic::catch_unwind(std::panic::AssertUnwindSafe(|| F::assume_ne(|| pa.inv_mod_xn(n))));
+                    let inv = match res {
+                        Ok(x) => x,
+                        Err(_) => {
+                            panics.push(format!("a~{m:#b}"));
+                            goals.push(A::Bool(false));
+                            continue;
+                        }
+                    };
+                    let prod = school::<F>(&a, &inv.coeffs);
+                    for i in 0..n {
+                        let pi = if i < prod.len() { prod[i] } else { F::ZERO };
+                        goals.push(eq(pi, if i == 0 { F::ONE } else { F::ZERO }));
+                    }
+                }
+                ctx.add(
+                    Ob::new(idp.clone(), POLY_FILES, format!("operand length {l}, modulus X^{n}; every support pattern with a non-zero constant term; symbols generic{}", if panics.is_empty() { String::new() } else { format!("; PANICS at patterns {}", panics.join(", ")) }))
+                        .sample("a * inv_mod_xn(a, n) == 1 mod X^n, and no panic")
+                        .goals(goals)
+                        .key("poly:inv-mod-xn-wrong-on-sparse-operands"),
+                );
+            });
+        }
+    }
+    // multiplication on sparse operands
+    for la in 1..=3usize {
+        for lb in 1..=3usize {
+            let idp = format!("C15.S.algebra.poly.mul.support.{la}x{lb}");
+            ctx.guarded(&idp.clone(), POLY_FILES, |ctx| {
+                if F::SYMBOLIC {
+                    crate::reset();
+                }
+                let mut goals = vec![];
+                for ma in 0..(1usize << la) {
+                    for mb in 0..(1usize << lb) {
+                        let (a, b) = (masked::<F>("a", la, ma), masked::<F>("b", lb, mb));
+                        let p = &PolynomialCoeffs::new(a.clone()) * &PolynomialCoeffs::new(b.clone());
+                        let want = school::<F>(&a, &b);
+                        for i in 0..p.coeffs.len().max(want.len()) {
+                            let pi = if i < p.coeffs.len() { p.coeffs[i] } else { F::ZERO };
+                            goals.push(eq(pi, if i < want.len() { want[i] } else { F::ZERO }));
+                        }
+                    }
+                }
+                ctx.add(
+                    Ob::new(idp.clone(), POLY_FILES, format!("operand lengths {la} and {lb}; every support pattern incl. the zero polynomial"))
+                        .sample("(a * b) == schoolbook product for sparse / zero operands")
+                        .goals(goals)
+                        .key("poly:mul-differs-on-sparse-operands"),
+                );
+            });
         }
     }
     for d in 1..=maxd {
